@@ -7,7 +7,7 @@ from ..runner import Case, Property
 class C19(Property):
     id = "C19"
     lean_module = "RosuModel.Props.C19Full"   # imports Props/C19Curve.lean (→ Props/C19Lipschitz.lean, Props/C19.lean, Props/C16Surplus.lean) and Props/C19Ieee.lean; namespace Rosu.C19
-    theorem_modules = ['RosuModel.Props.C19Curve', 'RosuModel.Props.C19Ieee', 'RosuModel.Props.C19IeeePos', 'RosuModel.Props.C19IeeeBound', 'RosuModel.Props.C19IeeeErr', 'RosuModel.Props.C19IeeeSearch', 'RosuModel.Props.C19IeeeFinite', ('RosuModel.Lemmas.FloatErrRange32', 'Rosu.FErr'), 'RosuModel.Props.C19IeeeLipschitz', 'RosuModel.Props.C19DecodedLinear', 'RosuModel.Props.C19IeeeFinal', ('RosuModel.Lemmas.FloatErrRangeSqrt', 'Rosu.FErr'), 'RosuModel.Props.C19DecodedLinearLen']   # files whose top-level theorems are all audited
+    theorem_modules = ['RosuModel.Props.C19Curve', 'RosuModel.Props.C19Ieee', 'RosuModel.Props.C19IeeePos', 'RosuModel.Props.C19IeeeBound', 'RosuModel.Props.C19IeeeErr', 'RosuModel.Props.C19IeeeSearch', 'RosuModel.Props.C19IeeeFinite', ('RosuModel.Lemmas.FloatErrRange32', 'Rosu.FErr'), 'RosuModel.Props.C19IeeeLipschitz', 'RosuModel.Props.C19DecodedLinear', 'RosuModel.Props.C19IeeeFinal', ('RosuModel.Lemmas.FloatErrRangeSqrt', 'Rosu.FErr'), 'RosuModel.Props.C19DecodedLinearLen', 'RosuModel.Props.C19DecodedLinearLen2']   # files whose top-level theorems are all audited
     namespace = "Rosu.C19"
     design_ref = "5.19"
     level_text = (
@@ -36,7 +36,8 @@ class C19(Property):
         "Model tied to the code bit-for-bit "
         "(positions, distances, indices, also for NaN / unsorted lengths).")
     technique = "Lean 4 proof (generic arithmetic, structural) + bit-exact differential correspondence + independent oracle"
-    required_theorems = ["calculateLength_some_shape", "linear_curve_len_shape", "linear_len_length_mismatch", "linear_curve_len_position_err_float32_partial", "linear_curve_len_lenAdjOk",
+    required_theorems = ["cutPoint_ok_of_c16", "cutPoint_lenAdjOk_of_c16", "linear_curve_len_position_err_float32_of_c16",
+                         "calculateLength_some_shape", "linear_curve_len_shape", "linear_len_length_mismatch", "linear_curve_len_position_err_float32_partial", "linear_curve_len_lenAdjOk",
                          "linear_curve_len_position_err_float32_of_cutPoint", "lenAdjOk_of_near_segment", "linCps_curve40", "linCps_curve60",
                          "seglen_bounded", "cumLens_finite", "natural_total_finite_float", "linear_curve_position_err_float32", "position_lipschitz_float32_uncond",
                          "positionAt_lipschitz_float32_uncond", "degSlack_lt",
@@ -63,6 +64,10 @@ class C19(Property):
                          # Props/C19Ieee.lean: the order part of PosLaws for the driver's Float; the search finds an exact hit for IEEE doubles
                          "posLaws_order_float", "bsLoop_hit_ieee", "idxOfDist_hit_ieee", "idxOfDist_hit_float"]
     partial_theorems = {
+        "linear_curve_len_position_err_float32_of_c16": "Props/C19DecodedLinearLen2.lean (sixth session, wave 12): the hypothesis `LenAdjOk` of the requested-length position theorem replaced by the side "
+            "conditions of C16's end-point theorems on the cut / extended segment (C16Side: CutSide = those of cut_end_point_near_segment_float, ExtSide = those of ext_end_point_err_float32 with the travel "
+            "bound 2^18 — the 2^21 of ext_end_point_near_ray is too weak for Bounded19) for control points bounded by 2^17. PARTIAL: finiteness of the re-projected point stays a hypothesis (the C16 theorems "
+            "conclude nearness in exact values only, which is 0 for ∞), and C16Side is not derived from the control points and 0 < L ≤ 131072. Kernel-evaluated at L = 40 (cut) and L = 60 (extension)",
         "linear_curve_len_position_err_float32_partial": "Props/C19DecodedLinearLen.lean (sixth session, wave 11): linear curves WITH a requested length (what decoded sliders have). calculateLength_some_shape "
             "(every arithmetic): the adjusted path keeps natural vertices except possibly the last, which is a natural vertex or the cut point; linear_curve_len_shape: for all-linear finite control points and a "
             "finite L the curve's lengths are Sorted, start at 0 and are finite, every vertex but possibly the last is a control-point position. FOUND FALSE as first stated: path.length = lengths.length — "
